@@ -2,6 +2,7 @@ package props
 
 import (
 	"fmt"
+	"github.com/gcash/bchd/chaincfg"
 	"math/big"
 
 	"github.com/gcash/bchd/bchec"
@@ -186,7 +187,12 @@ func c06roundtripCase(c *vf.Ctx, i int) {
 	if !c.Call("bchec.PrivKeyFromBytes", func() string { return hx(kb) }, func() { priv, _ = bchec.PrivKeyFromBytes(bchec.S256(), kb) }) {
 		return
 	}
-	for _, net := range allNets {
+	// the six built-in networks plus caller-defined networks covering every
+	// private-key version byte (NewWIF takes any *chaincfg.Params)
+	nets := append(append([]netInfo{}, allNets...),
+		netInfo{fmt.Sprintf("custom-%02x", byte(i)), &chaincfg.Params{PrivateKeyID: byte(i)}},
+		netInfo{fmt.Sprintf("custom-%02x", byte(i*7+3)), &chaincfg.Params{PrivateKeyID: byte(i*7 + 3)}})
+	for _, net := range nets {
 		for _, compressed := range []bool{false, true} {
 			in := func() string { return fmt.Sprintf("scalar=%x net=%s compressed=%v", kb, net.Name, compressed) }
 			c.Nontrivial(vf.Mix(0x06, vf.HashBytes(kb), uint64(net.P.PrivateKeyID), vf.HashString(fmt.Sprint(compressed))))
